@@ -68,6 +68,38 @@ CLAIMS = {
    note="Full 64-bit width, no bound on history length for the flag algebra (inductive step). Behavioural irrelevance of options for typed Marshal/Unmarshal is outside the claim."),
 }
 
+# additions made after the first registration (kept separate so that the original claims stay readable)
+ALSO = {
+ "C02": " Also decided: embedded fallbacks (raw value / map) on two struct shapes incl. one whose visit order differs from its field numbering with omitzero members present or dropped; pointer/interface values and key functions (warm cache) in object-name position; a time.Time whose location name (1-3 symbolic bytes) is printed by named and custom layouts.",
+ "C03": " Also decided: seven routes through the real Unmarshal (*any, *any with duplicates allowed, map[string]any, []any, UnmarshalRead, a named empty interface, *any with a declining UnmarshalFromFunc) agree with the reference tree, and literals overflowing float64 at every position are an error on all of them.",
+ "C04": " Also decided: every int64/uint64 as number, quoted number and map key; byte arrays/slices under each v1 representation option alone; maps keyed by *string/*int8; every int64 time.Duration through the four decimal units (kernels and typed members with format tags) and non-negative ones through ISO 8601; unix-seconds timestamps with 0 <= sec < 2^40 (kernel and typed member).",
+ "C05": " Also decided: json.UnmarshalRead equals json.Unmarshal for first values ending around the 64/128/256-byte buffer boundaries with a symbolic tail, over readers that fill the buffer or trickle, the reader reporting empty-buffer polling as non-termination.",
+ "C07": " Also decided: typed json.MarshalWrite / json.MarshalEncode deliver exactly json.Marshal's bytes for 13 value shapes (empty containers at top level, omitempty retractions around the pooled buffer's flush threshold) on both writer kinds, and only a prefix after a failed first write.",
+ "C08": " Also decided: a duplicated (possibly escaped) name one level down is rejected by default and accepted with AllowDuplicateNames for eight kinds of target at that position (struct, map, any, raw value, skipped unknown member, embedded raw and map fallbacks, pointer to map); map targets pre-populated or not.",
+ "C09": " Also decided: pointer-receiver methods at seven addressable/non-addressable positions (direct and promoted fields); three further recorded differences with exact regions.",
+ "C11": " Also decided: eleven paths by which a string reaches Marshal's output (value, map key, member names, raw value field, MarshalJSON, MarshalText, AppendText, MarshalJSONTo token/raw, inside any, text-marshaler key) under EscapeForHTML/EscapeForJS/PreserveRawStrings: no raw < > & or U+2028/9, same text.",
+ "C12": " Also decided: escaped duplicate names under PreserveRawStrings.",
+ "C14": " Also decided: null zeroes each of 13 destination kinds and keeps the other fields; arrays shorter than the Go array (JSON array or base64) are refused by default and zero the tail under UnmarshalArrayFromAnyLength.",
+ "C15": " A thirteenth type with three levels of embedding was added.",
+ "C16": " Also decided: escaped member names on the value path; names written as raw values with duplicates allowed; SemanticError offset/pointer for one conversion error at a solver-chosen slot.",
+ "C19": " Also decided: each of 24 boolean options passed as false / true-then-false / v1 defaults followed by v2 defaults gives the same Marshal bytes and Unmarshal value as no option; the nil argument class of WithMarshalers/WithUnmarshalers; option restoration on the nil-embedded-pointer error path.",
+ "C20": " Also decided: cycles running only through pointers/interfaces (marshal side; the unmarshal side is a known finding); a coder used after a typed call with a differing per-call AllowDuplicateNames failed mid-object never panics.",
+}
+NOTE = {
+ "C03": "Correct rounding of numbers is strconv's (uninterpreted function on symbolic digits, real code on concrete literals).",
+ "C05": "Bounded: inputs of 2-3 fully symbolic bytes and templates of up to 18 bytes with symbolic holes, 2-3 calls, the first 2-9 Read sizes symbolic then 1-byte reads; UnmarshalDecode streams of typed values are outside. Trusted: gosym semantics (replay-validated), z3.",
+ "C07": "Other Go types for the typed entry points and buffers between 16 bytes and 4 KiB are outside; at most 2 write faults per sequence.",
+ "C08": "Struct targets with symbolic member names are exercised by the C15 harnesses; numerically equal integer keys are outside.",
+ "C16": "Bounded input lengths and call sequences; SemanticError positions for one type only.",
+ "C04": "Fixed types; decimal formatting of symbolic integers is a contract stub (digits constrained to denote the value); float digits, time layouts, negative/other-unit unix timestamps and negative ISO 8601 durations are outside (solver timeouts are reported, not claimed). reflect is the engine's go/types-backed environment model; harnesses replay natively verbatim.",
+ "C20": "One known finding (KF-C20-unmarshal-pointer-cycle) is attributed by region. Cycles through containers past depth 1000 and wall-clock termination (only the step budget) are outside.",
+ "C09": "Nine behavioural differences found on the pinned tree are recorded as known findings and attributed by tight regions; anything else is a violation. Error text, v1.Number vs json.Number, Decoder.Buffered and calls after the first error are outside.",
+}
+for k, v in ALSO.items():
+    CLAIMS[k]["text"] += v
+for k, v in NOTE.items():
+    CLAIMS[k]["note"] = v
+
 NA = {}
 
 def main():
